@@ -62,6 +62,16 @@ def cases(tier, seed):
         dcoefs = [rng.choice([-2, -1, 1, 2, 3]) for _ in dshape]
         out.append(dict(kind='tosympy', shape=[list(m) for m in shape], coefs=coefs, dshape=[list(m) for m in dshape], dcoefs=dcoefs,
                         op=rng.choice(['id', 'add', 'mul', 'div', 'neg', 'pow'])))
+    # rational functions whose denominator has the constant term 1 plus further terms (1 + x, 1 + a*a + b*b), and other fixed shapes
+    for dshape, dcoefs in (([[], ['a']], [1, 1]), ([[], ['a']], [1, -2]), ([[], ['a', 'a'], ['b', 'b']], [1, 1, 1]), ([[], ['b']], [2, 1]), ([['a']], [1]), ([[]], [1]), ([[]], [3])):
+        for shape, coefs in (([[], ['a']], [1, -1]), ([['b']], [2]), ([['a', 'b'], ['c']], [1, 3])):
+            for op in ('div', 'div-pow', 'div-add'):
+                out.append(dict(kind='tosympy', shape=shape, coefs=coefs, dshape=dshape, dcoefs=dcoefs, op=op))
+    # Polynomial / int and RationalPolynomial / int multiply by the FLOAT 1/k; CrossHair cannot confirm float
+    # arithmetic, so this one operation is covered by exhaustive small INTEGER coefficients (enumeration, not a solver claim)
+    for shape in ([['a'], ['b']], [[], ['a']], [['a', 'b']], [['a'], ['a', 'b'], ['c']]):
+        for k in (2, 3, 6):
+            out.append(dict(kind='div-int-enumerated', shape=shape, k=k))
     # fork mode on real-valued coefficients
     m = 120 if tier == 'quick' else 800
     for i in range(m):
@@ -208,11 +218,32 @@ def run_case(desc, V):
             r, want = -P, -_deval(_pd(P), env)
         elif op == 'pow':
             r, want = P ** 2, _deval(_pd(P), env) * _deval(_pd(P), env)
+        elif op == 'div-pow':
+            r = RationalPolynomial(P, Q) ** 2
+            q_ = _deval(_pd(P), env) / _deval(_pd(Q), env)
+            want = q_ * q_
+        elif op == 'div-add':
+            r = RationalPolynomial(P, Q) + RationalPolynomial(Q, P) if bool(P) else RationalPolynomial(P, Q)
+            want = _deval(_pd(P), env) / _deval(_pd(Q), env) + (_deval(_pd(Q), env) / _deval(_pd(P), env) if bool(P) else 0)
         else:
             r = RationalPolynomial(P, Q)
             want = _deval(_pd(P), env) / _deval(_pd(Q), env)
         got = sy2z3.to_value(r.tosympy(), env)
         return [Eq('tosympy', got, want)]
+    if kind == 'div-int-enumerated':
+        import itertools
+        claims = []
+        rngc = (-6, -3, -2, -1, 1, 2, 3, 4, 6, 9)
+        for coefs in itertools.product(rngc, repeat=len(desc['shape'])):
+            P = Polynomial([[c, *m] for c, m in zip(coefs, desc['shape'])])
+            for tag, r in (('poly', P / desc['k']), ('rat', (RationalPolynomial(P) / desc['k']).numer)):
+                d = _pd(r)
+                for c, m in zip(coefs, desc['shape']):
+                    claims.append(Eq(f'{tag}/int[{coefs},{"*".join(m) or "1"}]', d.get(tuple(sorted(m)), 0), Fraction(c, desc['k'])))
+                if len(d) != len(coefs):
+                    claims.append(Fail(f'{tag}/int:terms[{coefs}]', f'{coefs}/{desc["k"]}: result has monomials {sorted(d)}'))
+        claims.append(Note('nontrivial', ''))
+        return claims
     if kind == 'fork-poly':
         A = Polynomial([[V.var(f'a{i}'), *m] for i, m in enumerate(desc['A'])])
         B = Polynomial([[V.var(f'b{i}'), *m] for i, m in enumerate(desc['B'])])
